@@ -57,7 +57,7 @@ func init() {
 		{Name: "coopmem", Pkg: "./mon/c11", Env: []string{"VERIF_MODE=coopmem"}, Par: true, RepeatQuick: 4, RepeatThorough: 16, Instr: []string{"core/system_metric/sys_metric_stat.go"}},
 	}})
 	specs = append(specs, Spec{ID: "C12", Level: "exploration", MinDistinct: 1000, Engines: []Engine{
-		{Name: "coop", Pkg: "./mon/c12", Instr: []string{"core/circuitbreaker/circuit_breaker.go", "core/stat/base/leap_array.go"}, WidenSkip: []string{"core/stat/base"}},
+		{Name: "coop", Pkg: "./mon/c12", Instr: []string{"core/circuitbreaker/circuit_breaker.go", "core/stat/base/leap_array.go", "core/stat/base/mutex.go+lockonly"}, WidenSkip: []string{"core/stat/base"}},
 		{Name: "stress", Pkg: "./mon/c12", Race: true, Env: []string{"VERIF_MODE=stress"}, DeathSig: "C12/stress:process-died"},
 	}})
 	specs = append(specs, Spec{ID: "C13", Level: "exploration", MinDistinct: 50, Engines: []Engine{
@@ -76,7 +76,7 @@ func init() {
 	specs = append(specs, Spec{ID: "C15", Level: "exploration", MinDistinct: 2, Engines: []Engine{
 		{Name: "race", Pkg: "./mon/c15", Race: true, DeathSig: "C15/process-died", RepeatQuick: 1, RepeatThorough: 4},
 		{Name: "coop", Pkg: "./mon/rulesco", Instr: []string{"core/flow/rule_manager.go+sync", "core/isolation/rule_manager.go+sync", "core/hotspot/rule_manager.go+sync", "core/circuitbreaker/rule_manager.go+sync", "core/circuitbreaker/circuit_breaker.go", "core/system/rule_manager.go+sync",
-			"core/hotspot/cache/concurrent_lru.go+sync", "core/hotspot/traffic_shaping.go", "core/stat/base_node.go", "core/stat/node_storage.go+sync", "core/stat/base/leap_array.go", "core/stat/base/bucket_leap_array.go"}},
+			"core/hotspot/cache/concurrent_lru.go+sync", "core/hotspot/traffic_shaping.go", "core/stat/base_node.go", "core/stat/node_storage.go+sync", "core/stat/base/leap_array.go", "core/stat/base/bucket_leap_array.go", "core/stat/base/mutex.go+lockonly"}},
 	}})
 	specs = append(specs, Spec{ID: "C16", Level: "exploration", MinDistinct: 50, Engines: []Engine{
 		{Name: "seq", Pkg: "./mon/c16", Procs: 1},
